@@ -537,16 +537,32 @@ impl ChainBuilder {
             bb = bb.extension(Some(ext));
         }
         let mut block = bb.build();
+        // header-field tweaks must keep the body and must NOT go through `into_view()` (which
+        // recomputes the roots) nor `Block::as_builder()` (which drops the extension field)
+        let rebuild = |block: &BlockView, raw: packed::RawHeader| -> BlockView {
+            let data = block.data();
+            let header = data.header().as_builder().raw(raw).build();
+            let nb = match data.extension() {
+                Some(ext) => packed::BlockV1::new_builder()
+                    .header(header)
+                    .uncles(data.uncles())
+                    .transactions(data.transactions())
+                    .proposals(data.proposals())
+                    .extension(ext)
+                    .build()
+                    .as_v0(),
+                None => data.as_builder().header(header).build(),
+            };
+            nb.into_view_without_reset_header()
+        };
         match spec.tweak {
             Tweak::TxRoot => {
                 let raw = block.data().header().raw().as_builder().transactions_root(Byte32::zero()).build();
-                let header = block.data().header().as_builder().raw(raw).build();
-                block = block.data().as_builder().header(header).build().into_view();
+                block = rebuild(&block, raw);
             }
             Tweak::ProposalsHash => {
                 let raw = block.data().header().raw().as_builder().proposals_hash(h256!("0x1").pack()).build();
-                let header = block.data().header().as_builder().raw(raw).build();
-                block = block.data().as_builder().header(header).build().into_view();
+                block = rebuild(&block, raw);
             }
             _ => {}
         }
